@@ -1049,26 +1049,33 @@ func runC02CallTable(c *Ctx) {
 			if !ts[w.reply] {
 				return
 			}
-			guard := false
+			// the edges on which the method string is one of the reply's own: `Method == m` true edges, `Method != m`
+			// false edges (an early refusal); the reply must be reachable only through them
+			var edges []edgeRef
 			for _, b := range fn.Blocks {
 				iff, ok := b.Instrs[len(b.Instrs)-1].(*ssa.If)
 				if !ok {
 					continue
 				}
 				cmp, ok := iff.Cond.(*ssa.BinOp)
-				if !ok || cmp.Op != token.EQL {
+				if !ok || (cmp.Op != token.EQL && cmp.Op != token.NEQ) {
 					continue
 				}
 				str, ok := constString(cmp.Y)
 				if !ok {
 					continue
 				}
+				side := 0
+				if cmp.Op == token.NEQ {
+					side = 1
+				}
 				for _, m := range w.methods {
-					if str == m && b.Succs[0].Dominates(in.Block()) {
-						guard = true
+					if str == m {
+						edges = append(edges, edgeRef{b, side})
 					}
 				}
 			}
+			guard := onlyViaEdges(fn, edges, func(x ssa.Instruction) bool { return x == in })
 			c.check(guard, "R4", w.fn+" reply "+w.reply+" tied to its method", p.Pos(in.Pos()),
 				"this reply type is produced only under Method == "+strings.Join(w.methods, "|"), "a "+w.reply+" reply can be produced for a request whose method is not "+strings.Join(w.methods, "|"))
 		})
